@@ -1,8 +1,10 @@
 import MosdnsVerif.Base.Hex
 import MosdnsVerif.Model.C07
+import MosdnsVerif.Model.C07R
+import MosdnsVerif.Gen.Facts
 
 namespace Driver.C07
-open Model.C07
+open Model.C07 Model.C07R
 
 def showDl : Dl → String
   | .none => "none" | .idle => "idle" | .short => "short"
@@ -33,8 +35,36 @@ def runOps (ops : List String) : String :=
         | some s' => go s' rest ((if s'.closed then "closed" else showDl s'.dl) :: acc)
   go {} ops []
 
+/-- the reader's action list of reusableConn.readLoop as regenerated from the source -/
+def readerOrder : List RAct := Gen.Facts.c07ReuseReaderOrder.map RAct.ofCode
+
+/-- operations on one reused (non-pipelined) connection, each run to quiescence:
+ `q` a caller takes the connection, arms, writes and waits; `r` its reply arrives and it returns; `k` its reply arrives, the
+ reader's deadline call is held up and the caller issues its next query as soon as it has the reply; `c` the waiting caller
+ gives up; `l` the reply to a caller that gave up arrives; `s` data nobody waits for; `x` read error / expiry -/
+def reuseOp (s : RConn) : String → Option RConn
+  | "q" => s.run readerOrder [.callerTake, .callerInstall, .callerArm, .callerWrite]
+  | "r" => (s.step readerOrder .readerGot).bind (·.drain readerOrder)
+  | "l" => (s.step readerOrder .readerGot).bind (·.drain readerOrder)
+  | "k" => s.replyThenReuse readerOrder
+  | "c" => s.step readerOrder .callerLeave
+  | "s" => s.step readerOrder .readerStray
+  | "x" => s.step readerOrder .readerFail
+  | _ => none
+
+def runReuse (ops : List String) : String :=
+  let rec go (s : RConn) (ops : List String) (acc : List String) : String :=
+    match ops with
+    | [] => ";".intercalate acc.reverse
+    | op :: rest =>
+      match reuseOp s op with
+      | none => ";".intercalate (("not-enabled@" ++ op) :: acc).reverse
+      | some s' => go s' rest ((if s'.closed then "closed" else showDl s'.dl) :: acc)
+  go {} ops []
+
 def handle : List String → String
   | ["conn", ops] => runOps (ops.splitOn ",")
+  | ["reuse", ops] => runReuse (ops.splitOn ",")
   | _ => "bad-op"
 
 end Driver.C07
